@@ -294,7 +294,7 @@ def mutate(text: str, rnd: random.Random) -> str:
         runs = list(re.finditer(r"\d+", text))
         if runs:
             m = rnd.choice(runs)
-            return text[:m.start()] + rnd.choice(["99", "24", "60", "61", "13", "32", "00", "0", "19", "23", "10000", "999999999999", "366"]) + text[m.end():]
+            return text[:m.start()] + rnd.choice(["99", "24", "60", "61", "13", "32", "00", "0", "19", "23", "18", "17", "12", "10000", "999999999999", "366"]) + text[m.end():]
         return text + "9"
     if c < 0.93:
         return text + rnd.choice(["0", " ", "x", "\x00", "99"])
